@@ -16,7 +16,11 @@ func init() { register("C06", c06) }
 
 // fieldChain renders the chain of field loads a value derives from, e.g.
 // "nodeMatch.n>node.hs>regHandler.Handler" (outermost base first).
-func fieldChain(v ssa.Value, d int) string {
+func fieldChain(v ssa.Value, d int) string { return fieldChainS(v, d, nil) }
+
+// fieldChainS is fieldChain with the parameters of a helper replaced by the
+// arguments of one of its call sites.
+func fieldChainS(v ssa.Value, d int, sub map[*ssa.Parameter]ssa.Value) string {
 	if d > 6 {
 		return "?"
 	}
@@ -27,7 +31,7 @@ func fieldChain(v ssa.Value, d int) string {
 			switch a := x.X.(type) {
 			case *ssa.FieldAddr:
 				f, _ := core.FieldOf(a)
-				base := fieldChain(a.X, d+1)
+				base := fieldChainS(a.X, d+1, sub)
 				if base == "" {
 					return f.String()
 				}
@@ -38,18 +42,21 @@ func fieldChain(v ssa.Value, d int) string {
 		}
 	case *ssa.FieldAddr:
 		f, _ := core.FieldOf(x)
-		base := fieldChain(x.X, d+1)
+		base := fieldChainS(x.X, d+1, sub)
 		if base == "" {
 			return "&" + f.String()
 		}
 		return base + ">&" + f.String()
 	case *ssa.Parameter:
+		if a, ok := sub[x]; ok {
+			return fieldChainS(a, d+1, nil)
+		}
 		return "param:" + x.Name()
 	case *ssa.Alloc:
 		return "local:" + x.Comment
 	case *ssa.Field:
 		f, _ := core.FieldOf(x)
-		return fieldChain(x.X, d+1) + ">" + f.String()
+		return fieldChainS(x.X, d+1, sub) + ">" + f.String()
 	}
 	return ""
 }
@@ -116,22 +123,46 @@ func c06Specificity(r *core.Run, rule string, ro *muxRoles) {
 	nodeNodes, nodeParam, nodeWild := ro.nodeNodes, ro.nodeParam, ro.nodeWild
 
 	// ---- R1 --------------------------------------------------------------
+	// candidate reads: in the matcher itself, or in a per-candidate helper handed the parent node -
+	// then the read stands at the helper's call site(s) in the matcher
 	var lit, par, wild []ssa.Instruction
-	for _, b := range mn.Blocks {
-		for _, in := range b.Instrs {
-			switch x := in.(type) {
-			case *ssa.Lookup:
-				if f, ok := core.LoadedField(x.X); ok && f == nodeNodes {
-					lit = append(lit, x)
+	addAt := func(dst *[]ssa.Instruction, in ssa.Instruction) {
+		sites := []ssa.Instruction{in}
+		if in.Parent() != mn {
+			sites = p.Lift(in, mn)
+		}
+		for _, sIn := range sites {
+			dup := false
+			for _, have := range *dst {
+				if have == sIn {
+					dup = true
 				}
-			case *ssa.UnOp:
-				if x.Op == token.MUL {
-					if f, ok := core.FieldOf(x.X); ok {
-						if f == nodeParam {
-							par = append(par, x)
-						}
-						if f == nodeWild {
-							wild = append(wild, x)
+			}
+			if !dup && sIn.Parent() == mn {
+				*dst = append(*dst, sIn)
+			}
+		}
+	}
+	for _, h := range p.Helpers(mn) {
+		if h.Parent() != nil {
+			continue
+		}
+		for _, b := range h.Blocks {
+			for _, in := range b.Instrs {
+				switch x := in.(type) {
+				case *ssa.Lookup:
+					if f, ok := core.LoadedField(x.X); ok && f == nodeNodes {
+						addAt(&lit, x)
+					}
+				case *ssa.UnOp:
+					if x.Op == token.MUL {
+						if f, ok := core.FieldOf(x.X); ok {
+							if f == nodeParam {
+								addAt(&par, x)
+							}
+							if f == nodeWild {
+								addAt(&wild, x)
+							}
 						}
 					}
 				}
@@ -375,51 +406,87 @@ func c06MatchAssembly(r *core.Run, rule string, root []*ssa.Function, ro *muxRol
 		}
 	}
 	r.Check(nAccept >= 2, rule, "matchNode", "accept-sites", p.Pos(mn.Pos()), fmt.Sprintf("%d accept sites", nAccept), "fewer than two accept sites (leaf and wildcard)")
-	// Match literals
-	for _, fn := range methodsOf(p, "", "Mux") {
-		if fn.Name() != "GetHandler" {
+	// Match literals (in GetHandler, or in a constructor helper of it: then once per call site, the
+	// helper's parameters standing for the call's arguments)
+	for _, gh := range methodsOf(p, "", "Mux") {
+		if gh.Name() != "GetHandler" {
 			continue
 		}
-		for _, b := range fn.Blocks {
-			for _, in := range b.Instrs {
-				al, ok := in.(*ssa.Alloc)
-				if !ok || core.TypeName(al.Type()) != "Match" {
-					continue
-				}
-				src := map[string]string{}
-				if al.Referrers() != nil {
-					for _, rf := range *al.Referrers() {
-						fa, ok := rf.(*ssa.FieldAddr)
-						if !ok || fa.Referrers() == nil {
-							continue
+		for _, fn := range p.Helpers(gh) {
+			type inst struct {
+				sub  map[*ssa.Parameter]ssa.Value
+				site ssa.Instruction
+			}
+			var insts []inst
+			if fn == gh || fn.Parent() != nil {
+				insts = []inst{{nil, nil}}
+			} else {
+				for _, cs := range p.CallersOf(fn) {
+					if !p.Within(cs.Parent(), gh) && cs.Parent() != gh {
+						continue
+					}
+					sub := map[*ssa.Parameter]ssa.Value{}
+					for i, prm := range fn.Params {
+						if i < len(cs.Common().Args) {
+							sub[prm] = cs.Common().Args[i]
 						}
-						f, _ := core.FieldOf(fa)
-						for _, r2 := range *fa.Referrers() {
-							if st, ok := r2.(*ssa.Store); ok && st.Addr == fa {
-								v := st.Val
-								if c, ok := v.(*ssa.Call); ok && c.Common().StaticCallee() != nil && c.Common().StaticCallee() == ro.toString {
-									src[f.Name] = "toString(" + fieldChain(c.Common().Args[0], 0) + ")"
-									// second argument: tokens re-sliced at the record's mount index (or nil for the root)
-									if sl, ok := c.Common().Args[2].(*ssa.Slice); ok {
-										lf, lok := core.LoadedField(sl.Low)
-										r.Check(lok && lf == nmMI, rule, core.FuncName(fn), "group-tokens-rebased-at-record-mountIdx", p.InstrPos(c), "group tags are evaluated on tokens[record.mountIdx:]", "group tags are evaluated on tokens re-sliced at "+valDesc(sl.Low))
+					}
+					insts = append(insts, inst{sub, cs})
+				}
+			}
+			for _, b := range fn.Blocks {
+				for _, in := range b.Instrs {
+					al, ok := in.(*ssa.Alloc)
+					if !ok || core.TypeName(al.Type()) != "Match" {
+						continue
+					}
+					for _, ins := range insts {
+						where := ssa.Instruction(al)
+						if ins.site != nil {
+							where = ins.site
+						}
+						src := map[string]string{}
+						if al.Referrers() != nil {
+							for _, rf := range *al.Referrers() {
+								fa, ok := rf.(*ssa.FieldAddr)
+								if !ok || fa.Referrers() == nil {
+									continue
+								}
+								f, _ := core.FieldOf(fa)
+								for _, r2 := range *fa.Referrers() {
+									if st, ok := r2.(*ssa.Store); ok && st.Addr == fa {
+										v := st.Val
+										if prm, isP := core.Strip(v).(*ssa.Parameter); isP {
+											if a, has := ins.sub[prm]; has {
+												v = core.Strip(a)
+											}
+										}
+										if c, ok := v.(*ssa.Call); ok && c.Common().StaticCallee() != nil && c.Common().StaticCallee() == ro.toString {
+											src[f.Name] = "toString(" + fieldChain(c.Common().Args[0], 0) + ")"
+											// second argument: tokens re-sliced at the record's mount index (or nil for the root)
+											tok := c.Common().Args[2]
+											if sl, ok := tok.(*ssa.Slice); ok {
+												lf, lok := core.LoadedField(sl.Low)
+												r.Check(lok && lf == nmMI, rule, core.FuncName(gh), "group-tokens-rebased-at-record-mountIdx", p.InstrPos(c), "group tags are evaluated on tokens[record.mountIdx:]", "group tags are evaluated on tokens re-sliced at "+valDesc(sl.Low))
+											}
+										} else {
+											src[f.Name] = fieldChainS(v, 0, ins.sub)
+										}
 									}
-								} else {
-									src[f.Name] = fieldChain(v, 0)
 								}
 							}
 						}
+						// node base: strip the trailing field names
+						base := func(s, suffix string) string { return strings.TrimSuffix(s, suffix) }
+						hb := base(src["Handler"], ">"+ro.nodeHs.String()+">regHandler.Handler")
+						lb := base(src["Listeners"], ">"+ro.nodeListeners.String())
+						gb := base(strings.TrimSuffix(strings.TrimPrefix(src["Group"], "toString("), ")"), ">"+ro.nodeHs.String()+">"+ro.rhGroup.String())
+						same := hb != "" && hb == lb && hb == gb && hb != src["Handler"]
+						r.Check(same, rule, core.FuncName(gh), "Match{Handler,Listeners,Group}-from-one-node:"+hb, p.InstrPos(where), "all three come from node "+hb, fmt.Sprintf("Match is assembled from different nodes: Handler<-%s Listeners<-%s Group<-%s", src["Handler"], src["Listeners"], src["Group"]))
+						if strings.Contains(hb, nmN.String()) {
+							r.Check(strings.HasSuffix(src["Params"], nmP.String()), rule, core.FuncName(gh), "Match.Params<-record.params", p.InstrPos(where), "path parameters come from the match record", "Match.Params is fed from "+src["Params"])
+						}
 					}
-				}
-				// node base: strip the trailing field names
-				base := func(s, suffix string) string { return strings.TrimSuffix(s, suffix) }
-				hb := base(src["Handler"], ">"+ro.nodeHs.String()+">regHandler.Handler")
-				lb := base(src["Listeners"], ">"+ro.nodeListeners.String())
-				gb := base(strings.TrimSuffix(strings.TrimPrefix(src["Group"], "toString("), ")"), ">"+ro.nodeHs.String()+">"+ro.rhGroup.String())
-				same := hb != "" && hb == lb && hb == gb && hb != src["Handler"]
-				r.Check(same, rule, core.FuncName(fn), "Match{Handler,Listeners,Group}-from-one-node:"+hb, p.InstrPos(al), "all three come from node "+hb, fmt.Sprintf("Match is assembled from different nodes: Handler<-%s Listeners<-%s Group<-%s", src["Handler"], src["Listeners"], src["Group"]))
-				if strings.Contains(hb, nmN.String()) {
-					r.Check(strings.HasSuffix(src["Params"], nmP.String()), rule, core.FuncName(fn), "Match.Params<-record.params", p.InstrPos(al), "path parameters come from the match record", "Match.Params is fed from "+src["Params"])
 				}
 			}
 		}
@@ -1503,6 +1570,7 @@ func c06RegistrationAccepts(r *core.Run, rule string, ro *muxRoles) {
 		return 2
 	}
 	scenario := func(text string) func(v ssa.Value) int8 {
+		depthEval := 0
 		var eval func(v ssa.Value) int8
 		eval = func(v ssa.Value) int8 {
 			if u, ok := v.(*ssa.UnOp); ok && u.Op == token.NOT {
@@ -1514,6 +1582,74 @@ func c06RegistrationAccepts(r *core.Run, rule string, ro *muxRoles) {
 			bo, ok := v.(*ssa.BinOp)
 			if !ok {
 				return 0
+			}
+			// the token classified by a helper of the unit: kindOf(tok) == kindWildcard. The helper is
+			// walked under the same assumption; when every return it can reach yields one constant,
+			// that constant is the call's value
+			if bo.Op == token.EQL || bo.Op == token.NEQ {
+				if call, isCall := bo.X.(*ssa.Call); isCall {
+					if k, isK := bo.Y.(*ssa.Const); isK && k.Value != nil {
+						if cal := call.Common().StaticCallee(); cal != nil && unit[cal] && cal != fn && cal.Signature.Results().Len() == 1 && depthEval < 3 {
+							handed := false
+							for _, a := range call.Call.Args {
+								if tok[a] {
+									handed = true
+								}
+							}
+							if handed && len(cal.Blocks) > 0 {
+								depthEval++
+								var vals []constant.Value
+								known := true
+								seen := map[*ssa.BasicBlock]bool{}
+								var walk func(b *ssa.BasicBlock)
+								walk = func(b *ssa.BasicBlock) {
+									if seen[b] || !known {
+										return
+									}
+									seen[b] = true
+									switch t := b.Instrs[len(b.Instrs)-1].(type) {
+									case *ssa.If:
+										switch eval(t.Cond) {
+										case 1:
+											walk(b.Succs[0])
+										case 2:
+											walk(b.Succs[1])
+										default:
+											walk(b.Succs[0])
+											walk(b.Succs[1])
+										}
+									case *ssa.Return:
+										for _, src := range phiSources(t.Results[0]) {
+											if c, isC := src.V.(*ssa.Const); isC && c.Value != nil {
+												vals = append(vals, c.Value)
+											} else {
+												known = false
+											}
+										}
+									case *ssa.Jump:
+										walk(b.Succs[0])
+									}
+								}
+								walk(cal.Blocks[0])
+								depthEval--
+								if known && len(vals) > 0 {
+									all := true
+									for _, cv := range vals[1:] {
+										if cv.Kind() != vals[0].Kind() || !constant.Compare(cv, token.EQL, vals[0]) {
+											all = false
+										}
+									}
+									if all && vals[0].Kind() == k.Value.Kind() {
+										if constant.Compare(vals[0], token.EQL, k.Value) == (bo.Op == token.EQL) {
+											return 1
+										}
+										return 2
+									}
+								}
+							}
+						}
+					}
+				}
 			}
 			// comparison of two decided conditions: (a == '$') == (n == 1)
 			if bo.Op == token.EQL || bo.Op == token.NEQ {
@@ -1622,13 +1758,18 @@ func c06MountAware(r *core.Run, rule string, ro *muxRoles) {
 		if len(ints) == 0 {
 			continue
 		}
-		kinds := map[core.Field]bool{}
-		for _, ac := range core.FieldAccesses([]*ssa.Function{fn}, func(f core.Field) bool {
+		// all three child kinds are read by the function, or by it and its per-candidate helpers
+		// (the matcher proper may leave the reads to per-candidate helpers)
+		kinds, ownKinds := map[core.Field]bool{}, map[core.Field]bool{}
+		for _, ac := range core.FieldAccesses(p.Helpers(fn), func(f core.Field) bool {
 			return f == ro.nodeNodes || f == ro.nodeParam || f == ro.nodeWild
 		}) {
 			kinds[ac.F] = true
+			if ac.Fn == fn {
+				ownKinds[ac.F] = true
+			}
 		}
-		if len(kinds) != 3 {
+		if !(len(ownKinds) == 3 || (fn == ro.matchNode && len(kinds) == 3)) {
 			continue
 		}
 		// the rebinding phi
